@@ -1,7 +1,7 @@
 """Per-property claim texts for MANIFEST.json (kept next to the obligations registry)."""
 
 ENGINES = [
-    dict(name="jsym", path="jsym/", serves_properties=["C01", "C02", "C03", "C04", "C05", "C06", "C07", "C09", "C12", "C18", "C20"],
+    dict(name="jsym", path="jsym/", serves_properties=["C01", "C02", "C03", "C04", "C05", "C06", "C07", "C09", "C12", "C17", "C18", "C20"],
          kind_free_text="own concolic executor on z3: proxy objects for ints/reals/bools, every branch decided by the solver, replay-based DFS to exhaustion, prefix-sharded over 16 processes; real JADE code runs natively"),
 ]
 
@@ -73,5 +73,12 @@ CLAIMS["C20"] = dict(
     note="psutil stubbed (_get_stats/_get_process_stats return solver reals); statistics over reals, floating-point rounding outside the claim; parquet resource-stat events outside the claim.",
     technique="bounded symbolic execution of the real code with z3 (jsym) over reals and integers")
 
+CLAIMS["C17"] = dict(
+    text="K-roundtrip: real GenericCommandConfiguration/GenericCommandParameters/SubmissionGroup built from solver choices (1-3 jobs from 5 field profiles covering every optional field set/unset, unicode/quotes/padding in commands and names, derived vs explicit names, blockers as int or str, 1-3 groups, 4 lifecycle-command sets): dump -> file -> create_config_from_file -> serialize() equal, same order, same fields, second dump byte-identical. "
+    "K-config: the same configurations with one injected invalidity (dependency on a nonexistent job, duplicate names, unknown group, max_nodes / poll_interval / hpc_type differing between groups, duplicate group names, estimate above walltime) go through the real `jade submit-jobs` in the world model: rejected with a configuration error and zero sbatch calls; every generated valid configuration is accepted. "
+    "K-runtime: JobConfiguration.check_job_runtimes with estimate and walltime as symbolic integers: rejected <=> some estimate*60 > walltime seconds.",
+    note="Strings are chosen from a stated vocabulary, not symbolic (pydantic and json are C code). JSON files only (TOML excluded by the property). Only the generic_command extension.",
+    technique="bounded symbolic execution of the real code with z3 (jsym): solver-chosen configurations, symbolic integer runtimes")
+
 _TODO = "check not built yet in this session (planned in DESIGN.md section 6); not claimed until it exists"
-NOT_APPLICABLE = {p: _TODO for p in ["C08", "C10", "C11", "C13", "C14", "C15", "C16", "C17", "C19"]}
+NOT_APPLICABLE = {p: _TODO for p in ["C08", "C10", "C11", "C13", "C14", "C15", "C16", "C19"]}
